@@ -95,7 +95,11 @@ Definition filter_ok (i : filter_in) (o : filter_out) : bool :=
       | Ok out => list_eqb rep_eqb out (pending_spec reports es)
       | _ => false
       end
-    else match o with Ok _ | Err => true | _ => false end      (* malformed reader answer: only "no crash" *)
+    (* judge soundness (Proofs/JudgeSoundC09P.v): this branch used to accept ANY non-crashing answer, so the "if" half
+       of C09_filter_error_iff was not judged - an answer Ok on well-formed ranges that overlap passed
+       (witness filter_ok_before_weak).  Well-formed ranges that overlap once sorted by start: errOverlappingRanges. *)
+    else if forallb (fun e => N.leb (fst e) (snd e)) es then match o with Err => true | _ => false end
+    else match o with Ok _ | Err => true | _ => false end      (* start > end in the reader answer: only "no crash" *)
   else match o with Ok _ | Err => true | _ => false end.
 Definition filter_judge := judge filter_model filter_oeqb filter_ok (fun _ => 0%N).
 
